@@ -1,4 +1,5 @@
 """C10 driver: solve_hungarian on integer / quarter-unit matrices, both directions."""
+from drivers.labels import cont_mode, seq1, seq2
 import random
 
 SCALE = 4
@@ -16,7 +17,7 @@ def run_hungarian(case):
     events = []
     for minimize in (True, False):
         try:
-            r = solve_hungarian(real, minimize=minimize)
+            r = solve_hungarian(seq2(real, cont_mode(case)), minimize=minimize)
             obj = r.objective
             if K and isinstance(obj, float) and obj == int(obj):
                 obj = int(obj)
